@@ -139,6 +139,7 @@ def make_model_class():
             self.faults = faults or {}
             self.gates = gates or {}     # execution index -> CoopEvent
             self.raw = set(raw)          # tags scheduled as non-wrapping events
+            self.switch = {}             # tag -> error strategy set by handler
             self.reset()
 
         def reset(self):
@@ -167,6 +168,9 @@ def make_model_class():
             self.nexec += 1
             f = self.faults.get(tag)
             g = self.gates.get(k)
+            if tag in self.switch:
+                # the model changes the error strategy while the run is on
+                sim.set_error_strategy(self.switch[tag])
             if g is not None:
                 # rendezvous: tell the driver, wait until it has asked to stop
                 g.set()
@@ -379,6 +383,7 @@ class RefSim:
         self.pause_on_fault = pause_on_fault
         self.state = "INIT"
         self.nexec = 0
+        self.switch = {}      # tag -> pause_on_fault from that handler on
         # has a listener been told about the current clock value?  (not after
         # a bounded run moved the clock to its bound)
         self.announced = True
@@ -400,6 +405,8 @@ class RefSim:
             nxt = ref.peek()
             if nxt is not None and nxt[0] <= self.end:
                 tag = ref.step()
+                if tag in self.switch:
+                    self.pause_on_fault = self.switch[tag]
                 self.announced = True
                 if tag != "W":
                     self.nexec += 1
@@ -418,7 +425,10 @@ class RefSim:
             if k == "pause_tc":
                 pause_tc = piece[1]
         else:
-            bound, incl = piece[1], (k == "uptoi")
+            # bounded run, possibly interrupted by a stop at execution pause_k
+            bound, incl = piece[1], k.startswith("uptoi")
+            if k.endswith("_pause"):
+                pause_k = piece[2]
             if bound < ref.clock or bound > self.end:
                 spec = False
             beyond = bound > self.end and bound >= ref.clock
@@ -448,6 +458,8 @@ class RefSim:
             self.nexec += 1
             if pause_k is not None and self.nexec - 1 == pause_k:
                 paused = True
+            if tag in self.switch:
+                self.pause_on_fault = self.switch[tag]
             if self.pause_on_fault and tag in self.faults:
                 paused = True
             if paused:
@@ -462,8 +474,11 @@ class RefSim:
         # a bound beyond the end: which events run is specified (all of them
         # up to and including the end), the state and clock afterwards are not
         return self.expect("ok", spec, paused=False,
-                           may_end=(k == "upto" and piece[1] == self.end),
-                           trace_spec=(k in ("upto", "uptoi") and beyond))
+                           may_end=(k in ("upto", "upto_pause")
+                                    and piece[1] == self.end
+                                    and (ref.peek() is None
+                                         or ref.peek()[0] > self.end)),
+                           trace_spec=(k.startswith("upto") and beyond))
 
 
 def issue(sim, s, model, piece, T, base=None):
@@ -503,10 +518,15 @@ def issue(sim, s, model, piece, T, base=None):
                 s.wait_quiescent()
             finally:
                 sim.remove_listener(SI_.TIME_CHANGED_EVENT, lst)
-        elif k == "pause_at":
+        elif k in ("pause_at", "upto_pause", "uptoi_pause"):
             gate = coopsched.CoopEvent()
-            model.gates = {piece[1]: gate}
-            sim.start()
+            model.gates = {piece[-1]: gate}
+            if k == "pause_at":
+                sim.start()
+            elif k == "upto_pause":
+                sim.run_up_to(base + T(piece[1]))
+            else:
+                sim.run_up_to_including(base + T(piece[1]))
             me = s.current
             while not gate.is_set() and not s._others_quiet(me):
                 coop_sleep(0.001)
@@ -526,7 +546,7 @@ def issue(sim, s, model, piece, T, base=None):
 
 
 def run_pieces(prog, clock, pieces, faults=None, strategy=None, raw=(),
-               end=END, warmup=0, listener=None):
+               end=END, warmup=0, listener=None, switch=None):
     """execute the piece list on the real simulator; one observation per
     piece plus a final one after cleanup"""
     from pydsol.core.experiment import SingleReplication
@@ -537,6 +557,7 @@ def run_pieces(prog, clock, pieces, faults=None, strategy=None, raw=(),
     def body(s):
         sim = simc("s")
         m = M(sim, prog, T, faults=faults, raw=raw, base=base)
+        m.switch = dict(switch or {})
         if strategy is not None:
             if isinstance(strategy, tuple):
                 sim.set_error_strategy(strategy[0], strategy[1])
